@@ -101,9 +101,9 @@ WSC = fr'(?:{WS}|{COMMENTS})'
 # A hex escape takes as many digits as it can (up to 6) and the whitespace that ends it, if present; written without
 # overlapping alternatives so that a failing match cannot backtrack through exponentially many decompositions.
 CSS_ESCAPES = (
-    fr'(?:\\(?:(?:[a-f0-9]{{1,5}}(?![a-f0-9])|[a-f0-9]{{6}})(?:{WS}|(?![ \t\r\n\f]))|[^\r\n\fa-f0-9]|$))'
+    fr'(?:\\(?:(?:[a-f0-9]{{1,5}}(?![a-f0-9])|[a-f0-9]{{6}})(?:{WS}|(?![ \t\r\n\f]))|[^\r\n\fa-f0-9]|\Z))'
 )
-CSS_STRING_ESCAPES = fr'(?:\\(?:[a-f0-9]{{1,6}}{WS}?|[^\r\n\f]|$|{NEWLINE}))'
+CSS_STRING_ESCAPES = fr'(?:\\(?:[a-f0-9]{{1,6}}{WS}?|[^\r\n\f]|\Z|{NEWLINE}))'
 # CSS Identifier
 IDENTIFIER = fr'''
 (?:(?:-?(?:[^\x00-\x2f\x30-\x40\x5B-\x5E\x60\x7B-\x7f]|{CSS_ESCAPES})|--)
@@ -160,8 +160,8 @@ PAT_PSEUDO_CONTAINS = fr'{PAT_PSEUDO_CLASS_SPECIAL}(?P<values>{VALUE}(?:{WSC}*,{
 
 # Regular expressions
 # CSS escape pattern
-RE_CSS_ESC = re.compile(fr'(?:(\\[a-f0-9]{{1,6}}{WSC}?)|(\\[^\r\n\f])|(\\$))', re.I)
-RE_CSS_STR_ESC = re.compile(fr'(?:(\\[a-f0-9]{{1,6}}{WS}?)|(\\[^\r\n\f])|(\\$)|(\\{NEWLINE}))', re.I)
+RE_CSS_ESC = re.compile(fr'(?:(\\[a-f0-9]{{1,6}}{WSC}?)|(\\[^\r\n\f])|(\\\Z))', re.I)
+RE_CSS_STR_ESC = re.compile(fr'(?:(\\[a-f0-9]{{1,6}}{WS}?)|(\\[^\r\n\f])|(\\\Z)|(\\{NEWLINE}))', re.I)
 # Pattern to break up `nth` specifiers
 RE_NTH = re.compile(fr'(?P<s1>[-+])?(?P<a>[0-9]+n?|n)(?:(?<=n){WSC}*(?P<s2>[-+]){WSC}*(?P<b>[0-9]+))?', re.I)
 # Pattern to iterate multiple values.
